@@ -40,9 +40,11 @@ _TRY_BRANCH = re.compile(r'Try>::branch$')
 _CLONE = re.compile(r'Clone>::clone$|::clone$')
 
 
-def derive(fn, seeds):
+def derive(fn, seeds, implications=False):
     """seeds: {local: kind}. Returns {local: kind} closed under derivation.
-    kind: ('bool', parity) | ('val', T) | ('discr', T)"""
+    kind: ('bool', parity) | ('val', T) | ('discr', T); with implications=True also ('imp', parity): a boolean that can
+    only be true when the seed has that parity (`x && seed`, `x && !seed`: every definition is `false` or derives from
+    the seed) - its true edge is a test of the seed, its false edge says nothing."""
     fn = F(fn) if isinstance(fn, dict) else fn
     d = dict(seeds)
     defs = fn.defs
@@ -54,8 +56,20 @@ def derive(fn, seeds):
                 continue
             kinds = []
             ok = True
+            imp = []
+            imp_ok = implications and fn.local_ty(l) == 'bool'
             for (b, k, payload) in dl:
                 nk = None
+                if imp_ok and k == 'A' and payload[0] == 'use':
+                    o_ = payload[1]
+                    if o_[0] == 'k' and 'false' in str(o_[2]):
+                        imp.append(None)
+                        ok = False
+                        continue
+                    if o_[0] in ('c', 'm') and not o_[1][1] and d.get(o_[1][0], (None,))[0] == 'imp':
+                        imp.append(d[o_[1][0]][1])
+                        ok = False
+                        continue
                 if k == 'A':
                     rv = payload
                     if rv[0] == 'use':
@@ -113,18 +127,28 @@ def derive(fn, seeds):
                                 nk = src
                 if nk is None:
                     ok = False
+                    imp_ok = False
                     break
                 kinds.append(nk)
+                if nk[0] == 'bool':
+                    imp.append(nk[1])
+                else:
+                    imp_ok = False
             if ok and kinds and all(k == kinds[0] for k in kinds):
                 d[l] = kinds[0]
                 changed = True
+            elif imp_ok:
+                par = {x for x in imp if x is not None}
+                if len(par) == 1:
+                    d[l] = ('imp', par.pop())
+                    changed = True
     return d
 
 
-def test_edges(fn, seeds):
+def test_edges(fn, seeds, implications=False):
     """-> (pos_edges, neg_edges, switch_blocks)"""
     fn = F(fn) if isinstance(fn, dict) else fn
-    d = derive(fn, seeds)
+    d = derive(fn, seeds, implications)
     pos, neg, sw = set(), set(), []
     for b in fn.g:
         t = fn.term(b)
@@ -150,6 +174,12 @@ def test_edges(fn, seeds):
             else:
                 continue
             p, n = (true_t, false_t) if kind[1] else (false_t, true_t)
+        elif kind[0] == 'imp':
+            explicit = {int(v): tb for v, tb in t['v']}
+            true_t = {explicit[1]} if 1 in explicit else ({t['o']} if 0 in explicit else set())
+            if not true_t:
+                continue
+            p, n = (true_t, set()) if kind[1] else (set(), true_t)
         elif kind[0] == 'discr':
             pi = POS_INDEX[kind[1]]
             explicit = {int(v): tb for v, tb in t['v']}
@@ -294,3 +324,30 @@ def enum_variant_edges(fn, local_pred, variant_index):
                 neg.add((b, tb))
     both = pos & neg
     return pos - both, neg - both
+
+
+def implied_edges(fn, seeds):
+    """test_edges closed under implication: a boolean local every possibly-true definition of which derives from the
+    seed with one parity (data: `x && !seed`) or sits behind edges on which the seed has that parity (control:
+    `if !seed { flag = cond }`) can only be true when the seed has that parity; the true edge of a test of it is then an
+    edge of that parity. -> (pos_edges, neg_edges)"""
+    fn = F(fn) if isinstance(fn, dict) else fn
+    seeds = dict(seeds)
+    while True:
+        pos, neg, _ = test_edges(fn, seeds, implications=True)
+        d = derive(fn, seeds, implications=True)
+        grew = False
+        for l, dl in fn.defs.items():
+            if l in d or fn.local_ty(l) != 'bool':
+                continue
+            nonfalse = [b for (b, k, rv) in dl if not (k == 'A' and rv[0] == 'use' and rv[1][0] == 'k' and 'false' in str(rv[1][2]))]
+            if not nonfalse or len(nonfalse) == len(dl) and len(dl) == 1 and False:
+                continue
+            if neg and all(guarded(fn, b, neg) for b in nonfalse):
+                seeds[l] = ('imp', False)
+                grew = True
+            elif pos and all(guarded(fn, b, pos) for b in nonfalse):
+                seeds[l] = ('imp', True)
+                grew = True
+        if not grew:
+            return pos, neg
